@@ -15,6 +15,9 @@ type VDB struct {
 	W *World
 	// GateCommits makes every transaction commit and non-transactional Set a pending event (ordering + ok/fail).
 	GateCommits bool
+	// LateCommits names transaction commit gates "~late:db.commit#k": they sort after every other alternative, so by
+	// default a commit stays in flight until nothing else can run (exploration order only).
+	LateCommits bool
 	// FaultCommits adds the "fail" answer to commit gates; FaultSets gates every Set inside a transaction with {ok, fail}.
 	FaultCommits bool
 	FaultSets    bool
@@ -228,7 +231,11 @@ func (t *vtxn) Commit() error {
 		}
 		// named by ordinal, not by key set: which connectors share a batch at start-up is decided by the Go scheduler
 		// (concurrent Opens racing to the persister); the key set is in the logged event, not in the choice name
-		if a := d.W.Gate(nil, "db.commit", menu...); a != "ok" && a != AnsAbort {
+		gate := "db.commit"
+		if d.LateCommits {
+			gate = "~late:db.commit"
+		}
+		if a := d.W.Gate(nil, gate, menu...); a != "ok" && a != AnsAbort {
 			t.done = true
 			d.W.Log("db", "commitfail", -1, strings.Join(keys, ","))
 			return errInjected
